@@ -460,7 +460,13 @@ def bfVerdict (sizeScale vrel : Rat) (o : ROpts) (out : List String) : String :=
   -- below the target (exactly 0 = intersecting, for target 0) at two of the three sample times at least
   let realHit : Bool :=
     let ds := (((out.dropWhile (· ≠ "bfd")).drop 1).take 3).filterMap FloatIO.ofHex?
-    (ds.filter fun d => q d < o.target - tl ∨ (o.target = 0 ∧ q d = 0)).length ≥ 2
+    -- (`bfp`: the distance of the first-hit PAIR of parts alone at six times shortly after its impact.  When present it is
+    --  the pair that has to cross: another part dipping below the target a little later — which is all that `bfd`, the
+    --  distance of the whole composite, can see — says nothing about whether THIS pair's impact was a crossing or an exact
+    --  tie at the target distance, which the broad phase may legitimately resolve either way.)
+    let ps := (((out.dropWhile (· ≠ "bfp")).drop 1).take 6).filterMap FloatIO.ofHex?
+    let below (l : List Float) : Nat := (l.filter fun d => FloatIO.isFinite d && (q d < o.target - tl ∨ (o.target = 0 ∧ q d = 0))).length
+    below ds ≥ 2 ∧ (ps.isEmpty ∨ below ps ≥ 2)
   let inMax (b : Rat) : Bool := b ≤ o.maxToi * (1 - 1 / 1000000) - 1 / 1000000000
   -- `bfl`: the parts cast with the traversal's own frames (what it must reproduce); `bf`: the same casts in world frames
   match bfToken "bfl" out, res with
@@ -495,6 +501,9 @@ def e2eOracle (dim : Nat) (sizeScale vrel : Rat) (o : ROpts) (out : List String)
   let timing := ["fail already-closer-than-target-at-toi", "fail earlier-contact", "fail still-apart-at-toi",
                  "fail none-but-distance-below-target d="].any (fun (p : String) => base.startsWith p)
   if base.startsWith "fail" ∧ timing ∧ b.startsWith "fail part-cast-depends-on-the-frame" then s!"{b} ({base.drop 5})" else
+  -- the same when both the traversal and its own part casts say `None` while the world-frame cast of a pair hits within max
+  let f0 := frameVerdict o out
+  if base.startsWith "fail" ∧ timing ∧ f0.startsWith "fail part-cast-depends-on-the-frame" then s!"{f0} ({base.drop 5})" else
   if base.startsWith "fail" then base else
   if b.startsWith "fail" then b else
   let f := frameVerdict o out
